@@ -27,6 +27,10 @@ class Scalar (α : Type) extends Add α, Sub α, Mul α, Div α, Neg α, LT α, 
   cos : α → α
   sin : α → α
   pi : α
+  /-- `np.power(x, y)` -/
+  pow : α → α → α
+  /-- `np.arctan2(y, x)` -/
+  atan2 : α → α → α
   /-- `np.nan_to_num` on one element -/
   nanToNum : α → α
   decLt : (a b : α) → Decidable (a < b)
@@ -43,6 +47,8 @@ instance : Scalar Float where
   cos := Float.cos
   sin := Float.sin
   pi := 3.141592653589793
+  pow := Float.pow
+  atan2 := Float.atan2
   nanToNum x :=
     if x.isNaN then 0.0
     else if x.isInf then (if x > 0.0 then 1.7976931348623157e308 else -1.7976931348623157e308)
@@ -259,6 +265,214 @@ def safeNorm (v : List α) : List α :=
   let l := norm v
   if k (1 / 10000000000000000) < l then v.map fun x => x / l else zeros v.length
 
+/-! ### geometry helpers (`ear.common.cart/azimuth/elevation`, `geom.local_coordinate_system`, `np.interp`) -/
+
+abbrev V3 (α : Type) := α × α × α
+
+/-- Python `max(a, b)` -/
+def maxS (a b : α) : α := if a < b then b else a
+
+/-- `np.clip(x, lo, hi)` -/
+def clip (x lo hi : α) : α := if x < lo then lo else if hi < x then hi else x
+
+/-- `np.radians`, `np.degrees` (numpy: multiplication by the rounded constant) -/
+def radians (x : α) : α := x * (Scalar.pi / k 180)
+def degrees (x : α) : α := x * (k 180 / Scalar.pi)
+
+/-- `ear.common.cart(az, el, dist)` -/
+def cart (az el dist : α) : V3 α :=
+  (Scalar.sin (radians (-az)) * Scalar.cos (radians el) * dist,
+   Scalar.cos (radians (-az)) * Scalar.cos (radians el) * dist,
+   Scalar.sin (radians el) * dist)
+
+/-- `ear.common.azimuth`, `elevation` (`np.hypot` as `sqrt(x² + y²)`), `np.linalg.norm` of a position -/
+def azimuthOf (p : V3 α) : α := -(degrees (Scalar.atan2 p.1 p.2.1))
+def elevationOf (p : V3 α) : α := degrees (Scalar.atan2 p.2.2 (sqrt (p.1 * p.1 + p.2.1 * p.2.1)))
+def norm3 (p : V3 α) : α := sqrt (p.1 * p.1 + p.2.1 * p.2.1 + p.2.2 * p.2.2)
+
+/-- `np.interp(x, xp, fp)` for ascending `xp` (numpy's C loop: left/right clamp, exact hit, else
+    `slope * (x - xp[j]) + fp[j]`) -/
+def interp (x : α) : List α → List α → α
+  | x0 :: xs, f0 :: fs =>
+    if x ≤ x0 then f0
+    else
+      let rec go (xa fa : α) : List α → List α → α
+        | xb :: xs', fb :: fs' =>
+          if eqS x xb then fb
+          else if x < xb then (fb - fa) / (xb - xa) * (x - xa) + fa
+          else go xb fb xs' fs'
+        | _, _ => fa
+      go x0 f0 xs fs
+  | _, _ => zero
+
+/-! ### `PolarExtentHandler`: `extent_mod` and the distance/depth logic of `handle` -/
+
+/-- `PolarExtentHandler.extent_mod` -/
+def extentMod (extent distance : α) : α :=
+  let minSize := k (1 / 5)
+  let size := interp extent [zero, k 360] [minSize, one]
+  let extent1 := k 4 * degrees (Scalar.atan2 size one)
+  interp (k 4 * degrees (Scalar.atan2 size distance)) [zero, extent1, k 360] [zero, extent, k 360]
+
+/-- the end distances `handle` evaluates: `[distance]` for `depth == 0`, else
+    `[distance + depth/2, distance - depth/2]` with negative values set to 0 -/
+def polarDistances (distance depth : α) : List α :=
+  if eqS depth zero then [distance]
+  else
+    let f (d : α) : α := if d < zero then zero else d
+    [f (distance + depth / k 2), f (distance - depth / k 2)]
+
+/-- the (width, height) arguments of the `calc_pv_spread` calls, one per end distance -/
+def polarExtents (distance width height depth : α) : List (α × α) :=
+  (polarDistances distance depth).map fun d => (extentMod width d, extentMod height d)
+
+/-- `pvs[0]` for one distance, RMS for two -/
+def polarCombine : List (List α) → List α
+  | [p] => p
+  | [p1, p2] => depthCombine p1 p2
+  | _ => []
+
+/-- `ammount_spread = np.interp(max(width, height), [0, fade_width], [0, 1])` -/
+def amountSpread (width height : α) : α := interp (maxS width height) [zero, k 10] [zero, one]
+
+/-- `PolarExtentHandler.handle(position, width, height, depth)` with the two panners as parameters:
+    `p` = `point_source_panner.handle(position)`, `s w h` = the normalised spread panning values for the
+    (already clamped) width/height. -/
+def polarHandle (n : Nat) (p : List α) (s : α → α → List α) (position : V3 α) (width height depth : α) : List α :=
+  polarCombine ((polarExtents (norm3 position) width height depth).map fun (w, h) =>
+    calcPvSpread n (amountSpread w h) p (s (maxS w (k 5)) (maxS h (k 5))))
+
+/-! ### `diverge`: positions -/
+
+/-- `gain_calc.diverge`, positions only.  `value = none`: no `objectDivergence` element;
+    `v2` = `version_at_least(document_version, 2)`. -/
+def divergePositions (cartesian : Bool) (position : V3 α) (value azimuthRange positionRange : Option α) (v2 : Bool) :
+    List (V3 α) :=
+  match value with
+  | none => [position]
+  | some v =>
+    if eqS v zero then [position]
+    else if cartesian then
+      let pr := positionRange.getD zero
+      let c (x : α) : α := clip x (-one) one
+      let cl (q : V3 α) : V3 α := (c q.1, c q.2.1, c q.2.2)
+      [cl (position.1 + pr, position.2.1 + zero, position.2.2 + zero), cl position,
+       cl (position.1 - pr, position.2.1 - zero, position.2.2 - zero)]
+    else
+      let ar := azimuthRange.getD (if v2 then zero else k 45)
+      let dist := norm3 position
+      let az := azimuthOf position
+      let el := elevationOf position
+      -- rows of local_coordinate_system(az, el); M = rows.T, so M·p = p.x·row0 + p.y·row1 + p.z·row2
+      let r0 := cart (az - k 90) zero one
+      let r1 := cart az el one
+      let r2 := cart az (el + k 90) one
+      let rot (q : V3 α) : V3 α :=
+        (r0.1 * q.1 + r1.1 * q.2.1 + r2.1 * q.2.2,
+         r0.2.1 * q.1 + r1.2.1 * q.2.1 + r2.2.1 * q.2.2,
+         r0.2.2 * q.1 + r1.2.2 * q.2.1 + r2.2.2 * q.2.2)
+      [rot (cart ar zero dist), position, rot (cart (-ar) zero dist)]
+
+/-! ### the whole of `GainCalc.render`, position pipeline included -/
+
+/-- the parts of the block and of `ExtraData` that `render` reads -/
+structure Block (α : Type) where
+  cartesian : Bool
+  /-- azimuth, elevation, distance or X, Y, Z -/
+  coords : V3 α
+  /-- `object_positionOffset` (same coordinate system as the position) -/
+  offset : Option (V3 α)
+  divValue : Option α
+  azimuthRange : Option α
+  positionRange : Option α
+  v2 : Bool
+  gain : α
+  diffuse : α
+  objectGain : α
+  mute : Bool
+
+/-- the position transforms and panners that stay parameters (their interiors belong to other checks):
+    `ScreenScaleHandler.handle`, `ScreenEdgeLockHandler.handle_vector`, the channel-lock handler of the path,
+    and the extent panner of the path (polar: `PolarExtentHandler.handle`; Cartesian: `allocentric_extent_pan`
+    on the non-excluded loudspeakers), each already applied to the block's other parameters. -/
+structure Oracles (α : Type) where
+  screenScale : V3 α → V3 α
+  edgeLock : V3 α → V3 α
+  channelLock : V3 α → V3 α
+  extentPan : V3 α → List α
+
+/-- `PositionOffset.apply`; `none` = the re-validation of the evolved polar position raises ValueError -/
+def applyOffset (cartesian : Bool) (c : V3 α) (offset : Option (V3 α)) : Option (V3 α) :=
+  match offset with
+  | none => some c
+  | some o =>
+    let r : V3 α := (c.1 + o.1, c.2.1 + o.2.1, c.2.2 + o.2.2)
+    if cartesian then some r
+    else if k (-180) ≤ r.1 ∧ r.1 ≤ k 180 ∧ k (-90) ≤ r.2.1 ∧ r.2.1 ≤ k 90 ∧ zero ≤ r.2.2 then some r
+    else none
+
+/-- `gain_calc.coord_trans` -/
+def coordTrans (cartesian : Bool) (c : V3 α) : V3 α :=
+  if cartesian then (clip c.1 (-one) one, clip c.2.1 (-one) one, clip c.2.2 (-one) one)
+  else cart c.1 c.2.1 c.2.2
+
+/-- `GainCalc.render` in full: positionOffset → coord_trans → screen scale → screen edge lock → channel lock →
+    diverge → extent pan per diverged position → (the rest is `render`). -/
+def renderFull (n : Nat) (o : Oracles α) (path : ZonePath α) (isLfe : List Bool) (b : Block α) :
+    Option (List α × List α) :=
+  match applyOffset b.cartesian b.coords b.offset with
+  | none => none
+  | some c =>
+    let position := coordTrans b.cartesian c
+    let position := o.screenScale position
+    let position := o.edgeLock position
+    let position := o.channelLock position
+    let d := divergeGains b.divValue
+    let ps := divergePositions b.cartesian position b.divValue b.azimuthRange b.positionRange b.v2
+    let g := ps.map o.extentPan
+    some (render n path d g b.gain b.objectGain b.mute isLfe b.diffuse)
+
+/-! ### `allo_extent.get_gains` skeleton: everything after the per-axis weights -/
+
+/-- per-channel inputs of the skeleton: `fx, fy, fz` = `_calc_f` per axis; `b*` = the six boundary terms
+    `np.power(g_point_axis[:, 0 or -1] * w_axis[0 or -1], p)`; `gPoint` = product of the separated point gains -/
+structure ExtCh (α : Type) where
+  fx : α
+  fy : α
+  fz : α
+  bLeft : α
+  bRight : α
+  bFront : α
+  bBack : α
+  bCeil : α
+  bFloor : α
+  gPoint : α
+
+/-- `alpha, beta` of `get_gains` (`s_fade = 0.2`) -/
+def fadeGains (sEff : α) : α × α :=
+  if sEff < k (1 / 5) then
+    (Scalar.cos ((sEff * Scalar.pi) / (k (1 / 5) * k 2)), Scalar.sin ((sEff * Scalar.pi) / (k (1 / 5) * k 2)))
+  else (zero, one)
+
+/-- `g_size` before normalisation -/
+def extGSize (p mu : α) (chs : List (ExtCh α)) : List α :=
+  let gInside := chs.map fun c => c.fx * c.fy * c.fz
+  let gInsideNorm := safeNorm gInside
+  List.zipWith (fun c gi =>
+    let gBound := c.bLeft * c.fy * c.fz + c.bRight * c.fy * c.fz + c.fx * c.bFront * c.fz + c.fx * c.bBack * c.fz
+                  + c.fx * c.fy * c.bCeil + c.fx * c.fy * c.bFloor
+    Scalar.pow (gBound + mu * gi) (one / p)) chs gInsideNorm
+
+/-- `g_total` before the last `safe_norm` -/
+def extGTotal (p mu sEff : α) (chs : List (ExtCh α)) : List α :=
+  let gSizeNorm := safeNorm (extGSize p mu chs)
+  let ab := fadeGains sEff
+  List.zipWith (fun c gs => ab.1 * c.gPoint + ab.2 * gs) chs gSizeNorm
+
+/-- `allo_extent.get_gains` from `g_inside = fx * fy * fz` to the returned `g_total_norm` -/
+def alloExtentSkeleton (p mu sEff : α) (chs : List (ExtCh α)) : List α :=
+  safeNorm (extGTotal p mu sEff chs)
+
 /-! ### `point_source.AllocentricPanner` over an arbitrary speaker grid -/
 
 /-- One leaf of the speaker tree: channel index and allocentric position. -/
@@ -350,4 +564,49 @@ def alloHandle (n : Nat) (st : Tree α) (px py pz : α) : Option (List α) :=
   (alloWrites st px py pz).map (applyWrites n)
 
 end
+/-! ### regenerated per-layout tables (`Gen/C01_Tables.lean`) and their decidable well-formedness checks -/
+
+/-- leaf as extracted: channel index, x, y, z as (numerator, denominator) of the exact float64 -/
+abbrev RawLeaf := Nat × (Int × Nat) × (Int × Nat) × (Int × Nat)
+
+/-- what `harness/c01.py` extracts per layout (LFE removed as `GainCalc.__init__` does) -/
+structure LayoutTable where
+  name : String
+  /-- number of non-LFE channels -/
+  n : Nat
+  /-- `layout.is_lfe` -/
+  isLfe : List Bool
+  /-- `ZoneExclusionDownmix(layout.without_lfe).channel_groups` -/
+  groups : List (List (List Nat))
+  /-- `AllocentricPanner(positions_for_layout(layout.without_lfe)).st` -/
+  tree : List (List (List RawLeaf))
+
+def ratLeaf (r : RawLeaf) : Leaf Rat := ⟨r.1, mkRat r.2.1.1 r.2.1.2, mkRat r.2.2.1.1 r.2.2.1.2, mkRat r.2.2.2.1 r.2.2.2.2⟩
+
+def ratTree (t : List (List (List RawLeaf))) : Tree Rat := t.map fun pl => pl.map fun row => row.map ratLeaf
+
+/-- duplicate-free (Bool) -/
+def nodupB {β : Type} [BEq β] : List β → Bool
+  | [] => true
+  | x :: xs => !(xs.contains x) && nodupB xs
+
+/-- the priority groups of every channel are duplicate-free and together list every channel exactly once -/
+def groupsOk (n : Nat) (groups : List (List (List Nat))) : Bool :=
+  groups.length == n &&
+  groups.all fun grps => grps.all nodupB && nodupB grps.flatten && grps.flatten.length == n && grps.flatten.all (· < n)
+
+/-- decidable form of the grid well-formedness `TreeWF` (Props): no empty plane/row, distinct z keys of the
+    planes, distinct y keys of the rows of a plane, distinct x in a row, every channel index `< n` exactly once -/
+def treeOk (n : Nat) (st : Tree Rat) : Bool :=
+  st.all (fun pl => !pl.isEmpty && pl.all (fun row => !row.isEmpty)) &&
+  nodupB (st.filterMap planeZ) &&
+  st.all (fun pl => nodupB (pl.filterMap rowY) && pl.all (fun row => nodupB (row.map (·.x)) && row.all (·.idx < n))) &&
+  nodupB ((st.map fun pl => pl.flatten.map (·.idx)).flatten) &&
+  st.all (fun pl => nodupB ((pl.map fun row => row.map (·.idx)).flatten)) &&
+  st.all (fun pl => pl.all fun row => nodupB (row.map (·.idx)))
+
+/-- no empty tree / plane / row (then `AllocentricPanner.handle` raises no IndexError: `alloHandle_total`) -/
+def treeNonempty {α : Type} (st : Tree α) : Bool :=
+  !st.isEmpty && st.all (fun pl => !pl.isEmpty && pl.all (fun row => !row.isEmpty))
+
 end Earverif.GainCalc
